@@ -5,7 +5,8 @@ from .. import dispatch
 from ..cfg import CFG
 from ..report import AnalysisError, norm
 from ..srcmodel import own_nodes, own_statements
-from ..terms import Resolver, alternatives, show, walk
+from ..facts import facts
+from ..terms import Resolver, alternatives, mentions, show, walk
 
 PROP = "C03"
 EXHAUSTIVE = False
@@ -83,34 +84,69 @@ def r2_left_wins(rep, ctx):
     rep.check(ok, "C03.R2", "_MatchQuantities:returns-sides", "unit matching returns (map1, map2, value1, value2) in operand order", "unit matching returns %s" % (ast.unparse(rets[0].value) if rets else None), fn=fn)
     sq = m.method("UnitDatabase", "_DoOperationWithSameQuantity")
     sres = Resolver(m, sq)
+    scfg = sres.cfg
+    if scfg is None:
+        raise AnalysisError("_DoOperationWithSameQuantity: no flow graph")
+
+    def root(t):
+        """The operand a quantity / unit-set term is taken from: follows receivers and set()/len()-like wrappers."""
+        while True:
+            if t[0] == "param":
+                return t[1]
+            if t[0] == "call" and t[1][0] == "attr":
+                t = t[1][1]
+            elif t[0] == "call" and t[1][0] == "name" and t[1][1] in ("set", "frozenset", "len", "tuple", "list", "sorted") and t[2]:
+                t = t[2][0]
+            else:
+                return None
+
+    def left_is_dimensionless(node):
+        """Does the fact 'the left operand has no composing units' hold on every path to node?"""
+        for k, l, r, pos in facts(scfg, node):
+            if k == "eq" and pos:
+                for x, y in ((l, r), (r, l)):
+                    if isinstance(y, ast.Constant) and y.value == 0 and isinstance(x, ast.Call) and isinstance(x.func, ast.Name) and x.func.id == "len" and x.args:
+                        t = sres.term(x.args[0])
+                        if all(root(a_) == 1 and mentions(a_, lambda s_: s_[0] == "attr" and s_[2] == "GetComposingUnitsJoiningExponents") for a_ in alternatives(t)):
+                            return True
+            if k == "truth" and not pos:
+                t = sres.term(l)
+                if all(root(a_) == 1 and mentions(a_, lambda s_: s_[0] == "attr" and s_[2] == "GetComposingUnitsJoiningExponents") for a_ in alternatives(t)):
+                    return True
+        return False
+
     n = 0
-    for r in own_nodes(sq.node):
-        if isinstance(r, ast.Return) and isinstance(r.value, ast.Tuple) and len(r.value.elts) == 2:
-            n += 1
-            t = sres.term(r.value.elts[0])
-            roots = set()
-            for a in alternatives(t):
-                x = a
-                while x[0] in ("call", "attr"):
-                    x = x[1] if x[0] == "attr" else x[1]
-                roots.add(x[1] if x[0] == "param" else None)
-            # quantity2 may only appear through the 'left is dimensionless' arm
-            ok = 1 in roots and roots <= {1, 2}
-            if 2 in roots:
-                swaps = [st for st in own_statements(sq.node) if isinstance(st, ast.Assign) and ast.unparse(st) == "quantity1 = quantity2"]
-                ok = ok and len(swaps) == 1 and isinstance(swaps[0]._parent, ast.If) and "len(composing_units1) == 0" in ast.unparse(swaps[0]._parent.test)
-            v = sres.term(r.value.elts[1])
-            def val_ok(t, pi, ti):
-                for a in alternatives(t):
-                    if a == ("param", pi, sq.params[pi]):
-                        continue
-                    if a[0] == "sub" and a[2] == ("const", ti) and a[1][0] == "call" and a[1][1] in (("field", "_MatchQuantities"),):
-                        continue
-                    return False
-                return True
-            order_ok = v[0] == "call" and len(v[2]) == 2 and val_ok(v[2][0], 3, 2) and val_ok(v[2][1], 4, 3)
-            rep.check(ok and order_ok, "C03.R2", "same-quantity:result:%d" % n, "the result carries the left operand's quantity (the right one only when the left is dimensionless) and operation(value1, value2)",
-                      "the result quantity derives from operand(s) %s / the value operation gets %s" % (sorted(x for x in roots if x), show(v, 100)), node=r, fn=sq)
+    for r in sorted((x for x in own_nodes(sq.node) if isinstance(x, ast.Return) and isinstance(x.value, ast.Tuple) and len(x.value.elts) == 2), key=lambda x: x.lineno):
+        n += 1
+        org = sres.origins(r.value.elts[0])
+        chains = sres.origin_chains
+        roots = set()
+        ok = True
+        for (st, t), chain in zip(org, chains):
+            for a_ in alternatives(t):
+                ro = root(a_)
+                roots.add(ro)
+                if ro == 2:
+                    # the right operand's quantity may be the result only where the left one is dimensionless
+                    if not any(left_is_dimensionless(scfg.node_of(x)) for x in chain + [r] if x is not None):
+                        ok = False
+                elif ro != 1:
+                    ok = False
+        ok = ok and 1 in roots
+        v = sres.term(r.value.elts[1])
+
+        def val_ok(t, pi, ti):
+            for a_ in alternatives(t):
+                if a_ == ("param", pi, sq.params[pi]):
+                    continue
+                if a_[0] == "sub" and a_[2] == ("const", ti) and a_[1][0] == "call" and a_[1][1] in (("field", "_MatchQuantities"),):
+                    continue
+                return False
+            return True
+
+        order_ok = v[0] == "call" and len(v[2]) == 2 and val_ok(v[2][0], 3, 2) and val_ok(v[2][1], 4, 3)
+        rep.check(ok and order_ok, "C03.R2", "same-quantity:result:%d" % n, "the result carries the left operand's quantity (the right one only when the left is dimensionless) and operation(value1, value2)",
+                  "the result quantity derives from operand(s) %s%s / the value operation gets %s" % (sorted(x for x in roots if x), "" if ok else " (the right one without the left being dimensionless)", show(v, 100)), node=r, fn=sq)
     rep.floor("C03.R2", "result returns", n, 2)
 
 
